@@ -3,7 +3,9 @@ package work
 import (
 	"bytes"
 	"fmt"
+	hessian "github.com/vogo/gohessian"
 	"math/rand"
+	"reflect"
 	"strings"
 	"unicode/utf8"
 
@@ -263,17 +265,48 @@ func c09check(env *Env, res *Result, c Case, sub int, pos string, isBin bool, s 
 		viol("dec-error", fmt.Sprintf("(%s) %v", hexClip(o.Wire), o.DecErr))
 		return
 	}
-	got, ok := get(o.Dec)
-	if !ok {
-		viol("mismatch:shape", fmt.Sprintf("(%s) decoded as %T %.200v", hexClip(o.Wire), o.Dec, o.Dec))
+	judge := func(how string, dec interface{}) {
+		got, ok := get(dec)
+		if !ok {
+			viol("mismatch:shape", fmt.Sprintf("%s(%s) decoded as %T %.200v", how, hexClip(o.Wire), dec, dec))
+			return
+		}
+		if got != s {
+			i := 0
+			for i < len(got) && i < len(s) && got[i] == s[i] {
+				i++
+			}
+			viol("mismatch:content", fmt.Sprintf("%sdecoded %d bytes, want %d; first difference at byte %d", how, len(got), len(s), i))
+		}
+	}
+	judge("", o.Dec)
+	if pos == "top" {
 		return
 	}
-	if got != s {
-		i := 0
-		for i < len(got) && i < len(s) && got[i] == s[i] {
-			i++
+	// the same container through the other documented way of calling: no name map on the encoding side,
+	// only the classes registered on the decoding side (list and map types then come from the field types)
+	res.Count("class_only_type_map_round_trips", 1)
+	classes := map[string]reflect.Type{}
+	for k, t := range o.TypMap {
+		if t.Kind() == reflect.Struct {
+			classes[k] = t
 		}
-		viol("mismatch:content", fmt.Sprintf("decoded %d bytes, want %d; first difference at byte %d", len(got), len(s), i))
+	}
+	var dec2 interface{}
+	var err2 error
+	pi, _ := Guard(func() {
+		var w2 []byte
+		if w2, err2 = hessian.ToBytes(val, nil); err2 == nil {
+			dec2, err2 = hessian.ToObject(w2, classes)
+		}
+	})
+	switch {
+	case pi != nil:
+		viol(pi.Class, "nil name map / class-only type map: panic "+pi.Msg)
+	case err2 != nil:
+		viol("dec-error", "nil name map / class-only type map: "+err2.Error())
+	default:
+		judge("nil name map / class-only type map: ", dec2)
 	}
 }
 
